@@ -14,7 +14,7 @@ ASSUMPTIONS = ['accepted side: unit norm within 1e-12, direction cosine with the
                'the generator behind random_attitudes is an owned seam: np.random.default_rng is replaced by a stub whose uniform() returns every point of {0,1e-12,.25,.5,.75,1-1e-12}^3',
                'rotate_by(order="S") is only required to return unit rows (its intended ordering semantics are ambiguous in the documentation)',
                'infinite components are not judged (the statement speaks of finite vectors and of NaN)']
-REQUIRED_CLASSES = ['vec3', 'vec4', 'array', 'dcm-route', 'addsub', 'rotate_by', 'average', 'random', 'reject:vector', 'reject:matrix', 'accept:matrix']
+REQUIRED_CLASSES = ['vec3', 'vec4', 'array', 'dcm-route', 'addsub', 'rotate_by', 'average', 'random', 'reject:vector', 'reject:matrix', 'accept:matrix', 'layout']
 DECADES = [10.0 ** k for k in range(-100, 101, 10)]
 
 
@@ -205,6 +205,56 @@ def job_average(ctx, k):
     ctx.sample({'average_subset': [S[0].tolist(), S[1].tolist(), S[2].tolist()]})
 
 
+def job_layouts(ctx, k):
+    """The same values handed over in other memory layouts / dtypes: C order, Fortran order, transposed view, strided view, float32, integers.
+    The object's OWN values (np.asarray(obj), what arithmetic uses) and its attribute copy must both be the expected ones."""
+    from ahrs import Quaternion, QuaternionArray, DCM
+    Qrows = A.Gl(A.G24(), k)[:5] * np.array([[1.0], [2.5], [0.3], [7.0], [1.0]])
+    Qunit = np.array([rq.qunit(r) for r in Qrows])
+    Rm = rq.R(A.MENU[k])
+    Rint = np.array([[0, -1, 0], [1, 0, 0], [0, 0, 1]])
+    def layouts(X):
+        big = np.zeros((X.shape[0] * 2, X.shape[1] * 2)); big[::2, ::2] = X
+        return [('C', np.ascontiguousarray(X)), ('F', np.asfortranarray(X)), ('T-view', np.ascontiguousarray(X.T).T), ('strided', big[::2, ::2]),
+                ('float32', X.astype(np.float32)), ('list', X.tolist())]
+    for name, X in layouts(Qrows):
+        tol = 1e-6 if name == 'float32' else 1e-12
+        key = f'layout={name} k{k}'
+        QA = QuaternionArray(X)
+        ctx.close(np.asarray(QA), Qunit, tol, 'QuaternionArray(rows in another layout): own values = normalised rows', key)
+        ctx.close(np.asarray(QA.array), Qunit, tol, 'QuaternionArray(rows in another layout): .array = normalised rows', key)
+        ctx.close(np.asarray(QA.to_DCM()), np.array([rq.R(q) for q in Qunit]), 10 * tol, 'QuaternionArray(rows in another layout).to_DCM', key)
+        QA2 = QuaternionArray(X, versors=False)
+        ctx.close(np.asarray(QA2), Qrows, tol * 10, 'QuaternionArray(rows in another layout, versors=False): own values = rows', key)
+        ctx.cls('layout'); ctx.seen(('layout', 'QA', name))
+    for name, X in layouts(Rm):
+        tol = 1e-6 if name == 'float32' else 1e-12
+        key = f'layout={name} k{k}'
+        try:
+            D = DCM(X)
+        except (ValueError, TypeError):
+            if name == 'float32':
+                continue                    # single precision is refused by the input assertion / falls outside the SO(3) acceptance band
+            raise
+        v = np.array([0.3, -1.2, 2.5])
+        ctx.close(np.asarray(D), Rm, tol, 'DCM(matrix in another layout): own values = the matrix', key)
+        ctx.close(np.asarray(D.A), Rm, tol, 'DCM(matrix in another layout): .A = the matrix', key)
+        ctx.close(np.asarray(D @ v), Rm @ v, 10 * tol, 'DCM(matrix in another layout) @ v', key)
+        ctx.close(np.asarray(D.to_quaternion()), rq.qunit(A.MENU[k]) * np.sign(A.MENU[k][0]), 10 * tol, 'DCM(matrix in another layout).to_quaternion', key)
+        ctx.cls('layout'); ctx.seen(('layout', 'DCM', name))
+    for name, X in (('int', Rint), ('int F', np.asfortranarray(Rint)), ('int list', Rint.tolist())):
+        D = DCM(X)
+        ctx.close(np.asarray(D), Rint.astype(float), 0.0, 'DCM(integer matrix): own values = the matrix', f'layout={name}')
+        ctx.close(np.asarray(D.A, float), Rint.astype(float), 0.0, 'DCM(integer matrix): .A = the matrix', f'layout={name}')
+    for name, x in (('int', np.array([1, 2, -2, 4])), ('float32', np.array([1, 2, -2, 4], dtype=np.float32)), ('strided', np.arange(8.0)[::2] + 1.0), ('list', [1, 2, -2, 4]), ('tuple', (1.0, 2.0, -2.0, 4.0))):
+        Q = Quaternion(x)
+        ref = rq.qunit(np.asarray(x, float))
+        ctx.close(np.asarray(Q), ref, 1e-7 if name == 'float32' else 1e-12, 'Quaternion(vector in another layout): own values = normalised vector', f'layout={name}')
+        ctx.close(np.asarray(Q.A), ref, 1e-7 if name == 'float32' else 1e-12, 'Quaternion(vector in another layout): .A = normalised vector', f'layout={name}')
+        ctx.cls('layout'); ctx.seen(('layout', 'Q', name))
+    ctx.sample({'layouts': ['C', 'F', 'T-view', 'strided', 'float32', 'list', 'int']})
+
+
 class _StubRng:
     def __init__(self, pts):
         self.pts = pts
@@ -341,5 +391,5 @@ def run(ctx):
     jobs += [('job_addsub', (lo, hi)) for lo, hi in core.chunks(n, 8)]
     jobs.append(('job_random', ()))
     for kk in ks:
-        jobs += [('job_rotate_by', (kk,)), ('job_average', (kk,)), ('job_reject', (kk,))]
+        jobs += [('job_rotate_by', (kk,)), ('job_average', (kk,)), ('job_reject', (kk,)), ('job_layouts', (kk,))]
     core.run_jobs(ctx, __name__, jobs)
